@@ -19,6 +19,7 @@ import (
 // H_C16_EncryptDecrypt: EncryptInnerLeaseSet2 then DecryptInnerData with the matching X25519 private key returns a LeaseSet2 with identical bytes; another private key, or a modified ciphertext byte (ephemeral key, nonce, ciphertext, tag regions), yields an error and no value.  Idealised primitives (DH commutes, HKDF injective, ideal AEAD).
 //
 //verif:props C16
+//verif:fanout 1500
 //verif:witness decrypted wrong-key tampered
 func H_C16_EncryptDecrypt() {
 	var ls lease_set2.LeaseSet2
@@ -86,7 +87,15 @@ func H_C16_EncryptDecrypt() {
 		nd.Assert(derr != nil, "decrypt/other-private-key-fails")
 		nd.Assert(back == nil, "decrypt/other-private-key-gives-no-value")
 	case 2:
+		// region boundaries (ephemeral key | nonce | ciphertext | tag) plus every 8th byte (T: every byte) of the whole blob
 		pos := []int{0, 31, 32, 43, 44, 44 + len(want)/2, len(ct) - 17, len(ct) - 16, len(ct) - 1}
+		step := 8
+		if nd.Thorough() {
+			step = 1
+		}
+		for p := 1; p < len(ct)-1; p += step {
+			pos = append(pos, p)
+		}
 		i := pos[nd.IntRange(0, len(pos)-1)]
 		mod := append([]byte{}, ct...)
 		mask := nd.Byte() // the modification is an XOR mask: the ciphertext itself is random natively
